@@ -18,16 +18,16 @@ theorem c08_h264_bound (disable : Bool) (mtu : UInt16) (st : PayState) (input : 
   intro h; subst h; simp at this
 
 /-- the predicate the harness evaluates on the real payloader holds of the model's observation of
-    every history of calls `(mtu, input)` (nil inputs included), with STAP-A enabled or disabled -/
-theorem c08_h264 (disable : Bool) (calls : List (UInt16 × Option Bytes)) :
-    C08.histOk false calls (c08Model disable calls) = true :=
-  histOk_hist disable {} calls
+    every history of calls `(mtu, input)` (nil inputs included), with STAP-A enabled or disabled —
+    the flag may even change from call to call (`flags`) -/
+theorem c08_h264 (flags : List Bool) (calls : List (UInt16 × Option Bytes)) :
+    C08.histOk false calls (c08Model flags calls) = true :=
+  histOk_hist {} flags calls
 
 /-- the same from any pending state (any earlier history) -/
-theorem c08_h264_any_state (disable : Bool) (st : PayState) (calls : List (UInt16 × Option Bytes)) :
-    C08.histOk false calls
-      ((payloadHist disable st (calls.map (fun (m, b) => (m, b.getD [])))).map PayObs.ofFrags) = true :=
-  histOk_hist disable st calls
+theorem c08_h264_any_state (st : PayState) (flags : List Bool) (calls : List (UInt16 × Option Bytes)) :
+    C08.histOk false calls ((payloadHist st (c08Hist flags calls)).map PayObs.ofFrags) = true :=
+  histOk_hist st flags calls
 
 /-- non-vacuity: SPS, PPS, IDR at MTU 10 — the STAP-A (5+4+3 bytes) does not fit, all three leave -/
 example : (payload false 10 {} [0,0,1, 0x67,1,2,3, 0,0,1, 0x68,9,9, 0,0,1, 0x65,7]).1 =
